@@ -106,39 +106,65 @@ Corollary env_ids_first bid lid tid requested inherit base cfd :
   lookup K_LANE_ID (build_env bid lid tid requested inherit base cfd) = Some lid.
 Proof. split; rewrite env_precedence; reflexivity. Qed.
 
+Lemma lookup_passed_on k l : process_assigned k = false -> lookup k (passed_on l) = lookup k l.
+Proof.
+  intros Hk. unfold passed_on. induction l as [|[k' v] l IH]; [reflexivity|].
+  cbn [filter fst lookup]. destruct (process_assigned k') eqn:E; cbn [negb].
+  - destruct (bytes_eqb k k') eqn:E2; [|exact IH].
+    apply bytes_eqb_eq in E2. subst k'. rewrite E in Hk. discriminate.
+  - cbn [lookup]. destruct (bytes_eqb k k'); [reflexivity|exact IH].
+Qed.
+
+Lemma lookup_passed_on_assigned k l : process_assigned k = true -> lookup k (passed_on l) = None.
+Proof.
+  intros Hk. apply lookup_None_notin. intros Hin. apply in_map_iff in Hin. destruct Hin as [[k' v] [Hf Hin]].
+  cbn [fst] in Hf. subst k'. unfold passed_on in Hin. apply filter_In in Hin. destruct Hin as [_ Hn].
+  cbn [fst] in Hn. rewrite Hk in Hn. discriminate.
+Qed.
+
 Corollary env_requested_over_inherited bid lid tid requested base cfd k v :
   lookup k requested = Some v -> bytes_eqb k K_BUILD_ID = false -> bytes_eqb k K_LANE_ID = false ->
+  process_assigned k = false ->
   lookup k (build_env bid lid tid requested true base cfd) = Some v.
 Proof.
-  intros Hr H1 H2. rewrite env_precedence. unfold sources. cbn [app lookup]. rewrite H1, H2.
-  rewrite lookup_app, Hr. reflexivity.
+  intros Hr H1 H2 H3. rewrite env_precedence. unfold sources. cbn [app lookup]. rewrite H1, H2.
+  rewrite lookup_app, (lookup_passed_on _ _ H3), Hr. reflexivity.
 Qed.
 
 Corollary env_not_inherited bid lid tid requested base cfd k :
   lookup k (build_env bid lid tid requested false base cfd) =
-  lookup k ([(K_BUILD_ID, bid); (K_LANE_ID, lid)] ++ requested ++ [(K_TASK_ID, tid)]
+  lookup k ([(K_BUILD_ID, bid); (K_LANE_ID, lid)] ++ passed_on requested ++ [(K_TASK_ID, tid)]
             ++ match cfd with Some fd => [(K_CONTROL_FD, fd)] | None => [] end).
 Proof. rewrite env_precedence. reflexivity. Qed.
 
-(* The quirk: LLBUILD_TASK_ID is written AFTER the requested and the inherited environment, so it does not win. *)
-Theorem env_task_id_overridable_refuted :
-  exists bid lid tid requested base,
-    lookup K_TASK_ID (build_env bid lid tid requested true base None) <> Some tid.
+(* The ids assigned per process are the process's own, whatever the requested and inherited environments contain. *)
+Theorem env_process_ids_own bid lid tid requested inherit base cfd :
+  lookup K_TASK_ID (build_env bid lid tid requested inherit base cfd) = Some tid /\
+  lookup K_CONTROL_FD (build_env bid lid tid requested inherit base cfd) = cfd.
 Proof.
-  exists [49], [48], [97; 98], [], [K_TASK_ID ++ [61; 122]]. vm_compute. discriminate.
+  split; rewrite env_precedence; unfold sources; cbn [app lookup].
+  - change (bytes_eqb K_TASK_ID K_BUILD_ID) with false. change (bytes_eqb K_TASK_ID K_LANE_ID) with false.
+    rewrite lookup_app, lookup_passed_on_assigned by reflexivity.
+    destruct inherit.
+    + rewrite lookup_app, lookup_passed_on_assigned by reflexivity. cbn [app lookup]. rewrite bytes_eqb_refl. reflexivity.
+    + cbn [app lookup]. rewrite bytes_eqb_refl. reflexivity.
+  - change (bytes_eqb K_CONTROL_FD K_BUILD_ID) with false. change (bytes_eqb K_CONTROL_FD K_LANE_ID) with false.
+    rewrite lookup_app, lookup_passed_on_assigned by reflexivity.
+    destruct inherit.
+    + rewrite lookup_app, lookup_passed_on_assigned by reflexivity. cbn [app lookup].
+      change (bytes_eqb K_CONTROL_FD K_TASK_ID) with false.
+      destruct cfd; cbn [lookup]; [rewrite bytes_eqb_refl|]; reflexivity.
+    + cbn [app lookup]. change (bytes_eqb K_CONTROL_FD K_TASK_ID) with false.
+      destruct cfd; cbn [lookup]; [rewrite bytes_eqb_refl|]; reflexivity.
 Qed.
 
-Theorem env_task_id_when_not_shadowed bid lid tid requested inherit base cfd :
-  lookup K_TASK_ID requested = None ->
-  (inherit = true -> lookup K_TASK_ID (map split_eq base) = None) ->
-  lookup K_TASK_ID (build_env bid lid tid requested inherit base cfd) = Some tid.
+(* Before the repair (a51183e) LLBUILD_TASK_ID was written after the unfiltered requested and inherited entries, so it
+   did not win.  Witness: a base environment containing LLBUILD_TASK_ID=z (an llbuild running inside an llbuild task). *)
+Theorem env_unrepaired_refuted :
+  exists bid lid tid requested base,
+    lookup K_TASK_ID (build_env_unrepaired bid lid tid requested true base None) <> Some tid.
 Proof.
-  intros Hr Hb. rewrite env_precedence. unfold sources. cbn [app lookup].
-  change (bytes_eqb K_TASK_ID K_BUILD_ID) with false. change (bytes_eqb K_TASK_ID K_LANE_ID) with false.
-  rewrite lookup_app, Hr, lookup_app.
-  destruct inherit.
-  - rewrite (Hb eq_refl). cbn [app lookup]. rewrite bytes_eqb_refl. reflexivity.
-  - cbn [lookup app]. rewrite bytes_eqb_refl. reflexivity.
+  exists [49], [48], [97; 98], [], [K_TASK_ID ++ [61; 122]]. vm_compute. discriminate.
 Qed.
 
 (* ------------------------------------------------------------------ what the child sees through getenv *)
@@ -193,8 +219,10 @@ Proof.
   cbn [fst] in Hfst. subst k'. apply env_entries_from_sources in Hin. unfold sources in Hin.
   repeat (apply in_app_or in Hin; destruct Hin as [Hin|Hin]).
   - destruct Hin as [H|[H|[]]]; injection H as H1 H2; subst key; reflexivity.
-  - rewrite forallb_forall in Hreq. apply Hreq. apply (in_map fst) in Hin. exact Hin.
-  - destruct inherit; [|destruct Hin]. apply in_map_iff in Hin. destruct Hin as [s [Hs _]].
+  - unfold passed_on in Hin. apply filter_In in Hin. destruct Hin as [Hin _].
+    rewrite forallb_forall in Hreq. apply Hreq. apply (in_map fst) in Hin. exact Hin.
+  - destruct inherit; [|destruct Hin]. unfold passed_on in Hin. apply filter_In in Hin. destruct Hin as [Hin _].
+    apply in_map_iff in Hin. destruct Hin as [s [Hs _]].
     pose proof (split_eq_clean s) as Hc. rewrite Hs in Hc. exact Hc.
   - destruct Hin as [H|[]]. injection H as H1 H2. subst key. reflexivity.
   - destruct cfd; [|destruct Hin]. destruct Hin as [H|[]]. injection H as H1 H2. subst key. reflexivity.
